@@ -2,6 +2,11 @@ import Srtla.Gen.Constants
 /-!
 # Model of the runtime control protocol (`src/control.rs`, `src/config.rs`) — component `control`, C18
 
+Entry-point glue (both listeners, `spawn_stdin_listener` and `control_socket::handle`): bytes up to
+`\n` → `String::from_utf8_lossy` → `trim` → `dispatch` / `dispatch_async`; a line that is not valid
+UTF-8 is therefore just another string (with U+FFFD in it).  The glue is std code, total on every
+byte string, and is exercised for real by the harness (socket and stdin sessions), not modelled.
+
 Boundary: the model starts *after* `serde_json::from_str::<Request>(line.trim())`.  A line is
 `blank` (empty after `trim`), `unparsable` (any deserialisation failure, including valid JSON of
 the wrong shape) or a decoded `Request { jsonrpc, method, params : Value, id : Option<Value> }`.
